@@ -877,6 +877,101 @@ func getStubs(r *lib.Run, lane int, n int) []*lib.M13VolumeStub {
 	return stubPools[lane][:n]
 }
 
+// runMasterScripted is a single-threaded history that makes two orders certain
+// which the random histories only meet by luck: an assignment served between the
+// first and the second heartbeat of a stream after a leader move, and (variant
+// "inflight") a large assignment the client has not written when the leader moves.
+func runMasterScripted(r *lib.Run, seq string, variant string) {
+	s := mSched{Index: -1, Seq: seq, Masters: 2, Servers: 1, PreVols: true, PreMax: 5000}
+	desc := map[string]interface{}{"part": "master-scripted", "seq": seq, "variant": variant}
+	r.Case(desc)
+	w := &mWorld{r: r, s: s, group: lib.M13NewRaftGroup()}
+	w.h = newHistory(r, "master", seq, desc)
+	if seq == "etcd" {
+		e, err := lib.M13NewFakeEtcd()
+		r.Must(err, "fake etcd")
+		w.etcd = e
+		defer e.Close()
+	}
+	for i := 0; i < 2; i++ {
+		name := fmt.Sprintf("127.0.0.1:%d", 9333+i)
+		dir := r.SubDir(fmt.Sprintf("sm%d", i))
+		m := lib.M13NewMaster(w.group, name, 9333+i, dir)
+		switch seq {
+		case "etcd":
+			sq, err := sequence.NewEtcdSequencer(w.etcd.URL(), dir)
+			r.Must(err, "NewEtcdSequencer")
+			m.MS.Topo.Sequence = sq
+		case "snowflake":
+			sq, err := sequence.NewSnowflakeSequencer(name)
+			r.Must(err, "NewSnowflakeSequencer")
+			m.MS.Topo.Sequence = sq
+		default:
+			m.MS.Topo.Sequence = sequence.NewMemorySequencer()
+		}
+		w.masters = append(w.masters, m)
+		w.iss = append(w.iss, &issuer{id: i, name: name})
+	}
+	st := getStubs(r, 0, 1)[0]
+	vs := &vserver{stub: st, vols: make(map[uint32]*srvVol), master: -1, rack: "r1", knows: w.group.LeaderName()}
+	w.servers = []*vserver{vs}
+	mv := w.h.vol(3)
+	mv.pre = []uint64{1, 2, 7, 2500, 4999, 5000}
+	mv.maxKey = 5000
+	vs.vols[3] = &srvVol{id: 3, collection: "", replication: "000", content: mv}
+	assign := func(mi int, count uint64, write bool) {
+		callT := tick()
+		resp, err := safeAssign(w, mi, &master_pb.AssignRequest{Count: count, Replication: "000"})
+		retT := tick()
+		if err != nil || resp == nil {
+			w.assignErr++
+			return
+		}
+		fid, perr := needle.ParseFileIdFromString(resp.Fid)
+		if perr != nil {
+			return
+		}
+		w.assignOK++
+		a := &asg{Issuer: w.iss[mi], Vol: uint32(fid.VolumeId), Start: uint64(fid.Key), Count: resp.Count, CallT: callT, RetT: retT}
+		w.h.record(a)
+		if write {
+			v := w.h.vol(a.Vol)
+			v.write(a.Start)
+			v.write(a.Start + a.Count - 1)
+		}
+	}
+	w.beat(vs) // first heartbeat of the stream to master 0 ...
+	for i := 0; i < 3; i++ {
+		assign(0, 5, true) // ... and assignments served before its second heartbeat
+	}
+	w.beat(vs)
+	if variant == "inflight" {
+		assign(0, 100, false) // handed out, nothing of it written when the leader moves
+	}
+	w.beat(vs)
+	w.group.SetLeader(w.masters[1].Name)
+	r.Count("master.leader_moves", 1)
+	w.beat(vs) // still on master 0: learns the new leader from the reply
+	w.beat(vs) // migrates: this is the FIRST heartbeat of the stream to master 1 ...
+	for i := 0; i < 3; i++ {
+		assign(1, 5, true) // ... and these are served before its second heartbeat
+	}
+	w.beat(vs)
+	assign(1, 1, true)
+	if vs.stream != nil {
+		vs.stream.Close()
+	}
+	w.h.check()
+	r.Count("master.scripted_histories", 1)
+	r.Count("master.assign_ok", w.assignOK)
+	r.Count("master.scripted_assign_ok", w.assignOK)
+	if w.assignOK >= 6 {
+		r.Nontrivial("master-scripted/" + seq + "/" + variant)
+	} else {
+		r.Inconclusive(fmt.Sprintf("scripted master history %s/%s: only %d assignments succeeded", seq, variant, w.assignOK))
+	}
+}
+
 func runMasterHistory(r *lib.Run, s mSched) {
 	r.Case(map[string]interface{}{"part": "master", "schedule": s})
 	rng := rand.New(rand.NewSource(s.RngSeed))
@@ -1260,6 +1355,11 @@ func main() {
 			r.Sample(map[string]interface{}{"part": "master", "schedule": ms[i]})
 		}
 	})
+	for _, seq := range []string{"memory", "etcd", "snowflake"} {
+		for _, variant := range []string{"written", "inflight"} {
+			runMasterScripted(r, seq, variant)
+		}
+	}
 	r.Note("wall_ms.master", time.Since(tm).Milliseconds())
 	grng := r.SubRng("c13-grow")
 	for i := 0; i < r.Pick(12, 100); i++ {
@@ -1285,11 +1385,17 @@ func replay(r *lib.Run, part string, path string) error {
 		Detail struct {
 			History struct {
 				Schedule json.RawMessage `json:"schedule"`
+				Seq      string          `json:"seq"`
+				Variant  string          `json:"variant"`
 			} `json:"history"`
 		} `json:"detail"`
 	}
 	if err := json.Unmarshal(b, &raw); err != nil {
 		return err
+	}
+	if part == "master-scripted" {
+		runMasterScripted(r, raw.Detail.History.Seq, raw.Detail.History.Variant)
+		return nil
 	}
 	for i := 0; i < 20; i++ {
 		switch part {
